@@ -12,6 +12,7 @@ import contextlib
 import io
 import json
 import os
+import re
 import shutil
 
 from pv import core
@@ -335,9 +336,10 @@ def run(tier):
     cov["positions_compared"] = sum(len(c["call"]) + len(c["stub"]) for c in cases)
     cov["failing_positions"] = len(verdicts)
     cov["kernel_kinds"] = kinds
-    cov["refusal_samples"] = sorted({c["notes"][k][:120] for c in cases
-                                     for k in ("stub_refused", "call_refused")
-                                     if k in c["notes"]})[:12]
+    cov["refusal_samples"] = sorted({
+        k + ": " + re.sub(r"c21k\d+", "c21kN", c["notes"][k])[:150]
+        for c in cases for k in ("stub_refused", "call_refused")
+        if k in c["notes"]})[:12]
     cov["unsupported_samples"] = [
         {"md": c["md"], "notes": c["notes"]} for c in unsupported[:5]]
     cov["rule"] = ("every metadata record of MdSetOf(tier) (LFRicArgOrder.tla, "
